@@ -1,4 +1,5 @@
 import WfProofs.SseClientLive
+import WfModel.GenEventLog
 
 /-!
 # C17 — the client's auto-reconnecting event stream delivers each event once
@@ -371,7 +372,8 @@ on every run, local names abstracted): the line iterator `iterLines`/`chunkedLin
 the reconnect loop in source order (the cursor enters from `after_sequence`, is sent as
 `str(cursor)`, moves only after validation and before the event is queued with it; the counter is
 reset after an accepted status, incremented per transport error, compared with `>`); the status
-dispatch and the order of the `except` clauses `connect`/`onStatus` follow; the 204 of `serve`. -/
+dispatch and the order of the `except` clauses `connect`/`onStatus` follow; the request carries the
+cursor as a query parameter only (no `Last-Event-ID` header that would override it); the 204 of `serve`. -/
 theorem _root_.C17_reader_source_shape :
     lineSource = "own-splitter" ∧
     lineIterShape = ["params=1", "buffer=''", "for text in response.aiter_text()", "buffer+=text",
@@ -383,14 +385,40 @@ theorem _root_.C17_reader_source_shape :
       "send after_sequence=str(cursor)", "raise_for_status", "counter = 0", "validate", "cursor = int(id)",
       "queue (sequence=cursor)", "counter += 1", "if counter Gt max_reconnect_attempts: raise ConnectionError"] ∧
     statusDispatch = [(404, "raise ValueError"), (204, "put _QueuedDone; return")] ∧
+    requestParams = ["sse", "include_internal", "after_sequence"] ∧ requestHeaders = ["Connection"] ∧
     handlers = [("ValueError", "pass"), ("httpx.TimeoutException", "raise TimeoutError"),
       ("httpx.RequestError,ConnectionError", "count"), ("asyncio.CancelledError", "put _QueuedDone"),
       ("BaseException", "put _QueuedError")] ∧
     serverDoneStatus = 204 ∧
     (∀ st : CState, (onStatus st 404).2 = some .errNotFound ∧ (onStatus st serverDoneStatus).2 = some .done) := by
-  refine ⟨by decide, by decide, by decide, by decide, by decide, by decide, by decide, ?_⟩
+  refine ⟨by decide, by decide, by decide, by decide, by decide, by decide, by decide, by decide, by decide, ?_⟩
   intro st
   exact ⟨by simp [onStatus], by simp [onStatus, serverDoneStatus]⟩
+
+/-- **What `Server.serve` transcribes** (`_resolve_event_stream`, regenerated with its locals
+abstracted by the C16 plug-in): the 204 test looks at ALL events after the cursor and at the
+persisted status or the log's last event; the subscription starts at the same cursor; an event is
+left out exactly when `include_internal` is off and the class name is the envelope's type or among
+its `types`; everything else is yielded with its own sequence. -/
+theorem _root_.C17_serve_source_shape :
+    Gen.EventLog.internalName = "InternalDispatchEvent" ∧
+    Gen.EventLog.apiResolve.drop 7 = [
+      "if not await self._service.store.query_events((await self._service.store.query(HandlerQuery(handler_id_in=[handler_id])))[0].run_id, after_sequence=after_sequence):",
+      "    v1 = await self._service.store.query_events((await self._service.store.query(HandlerQuery(handler_id_in=[handler_id])))[0].run_id)",
+      "    v2 = is_terminal_status((await self._service.store.query(HandlerQuery(handler_id_in=[handler_id])))[0].status) or (bool(v1) and AbstractWorkflowStore._is_terminal_event(v1[-1]))",
+      "    if v2:",
+      "        return None",
+      "async def v3():",
+      "    async for v4 in self._service.store.subscribe_events((await self._service.store.query(HandlerQuery(handler_id_in=[handler_id])))[0].run_id, after_sequence=after_sequence):",
+      "        v5 = v4.event",
+      "        v6 = (v5.types or []) + [v5.type]",
+      "        if not include_internal and InternalDispatchEvent.__name__ in v6:",
+      "            continue",
+      "        if not include_qualified_name:",
+      "            v5 = v5.model_copy(update={'qualified_name': None})",
+      "        yield (v4.sequence, v5)",
+      "return v3()"] := by
+  exact ⟨by decide, by decide +kernel⟩
 
 /-! ## the pre-fix reader (F29) -/
 
